@@ -308,6 +308,10 @@ def rule_op_sem(ctx: RuleContext, p: Program, rid: str) -> None:
                     return None
                 if fname in TREES or (isinstance(e.func, ast.Name) and e.func.id in TREES and e.func.id not in env):
                     return self.instantiate_tree(last, [self.expr(a, env) for a in e.args], {k.arg: self.expr(k.value, env) for k in e.keywords})
+                if isinstance(e.func, ast.Call) and isinstance(e.func.func, ast.Name) and e.func.func.id == 'type' and 'type' not in env and len(e.func.args) == 1:
+                    o_ = self.expr(e.func.args[0], env)          # type(self)(...)
+                    if self.is_tree(o_):
+                        return self.instantiate_tree(o_.cls, [self.expr(a, env) for a in e.args], {k.arg: self.expr(k.value, env) for k in e.keywords})
                 if fname in ('cls',) and isinstance(env.get('cls'), possem.ClassRef) and env['cls'].name in TREES:
                     return self.instantiate_tree(env['cls'].name, [self.expr(a, env) for a in e.args], {k.arg: self.expr(k.value, env) for k in e.keywords})
                 if fname.endswith('TokenStore.from_tokens') and len(e.args) == 1:
@@ -492,6 +496,18 @@ def rule_op_sem(ctx: RuleContext, p: Program, rid: str) -> None:
                 problems.setdefault(meth, f'{show}: arithmetic gives {want}; the tree that is built evaluates to {tv}, its text '
                                           f'[{" ".join(str(t.f["raw_text"]) for t in it.store_of(res).f["doc"] if t.cls != "Whitespace")}] to {xv}')
                 continue
+            if res is not a:
+                # the helper works in place (x *= n, and x * n on a private copy): the expression it was applied to is the one whose store
+                # received the operator and the operand, so it must describe them
+                try:
+                    tva, xva = readings(it, a)
+                    if tva != want or xva != want:
+                        raise _Bad(f'it evaluates to {tva}, its text to {xva}')
+                except (_Bad, possem.Raised) as ex:
+                    problems.setdefault(meth, f'{show}: the result is handed back as a new expression object while the tokens were spliced into the store of '
+                                              f'the expression the operator was applied to, which no longer describes its own text ({ex}): after '
+                                              f'`x.number *= n` the document holds the new tokens under the old tree')
+                    continue
             if [id(x) for x in b_store.f['doc']] != [id(x) for x in b_doc] or readings(it, b)[0] != vb:
                 problems.setdefault(meth, f'{show}: the right operand (or the store it lives in) is changed by the operation')
     # unary signs and explicit parentheses
